@@ -84,12 +84,12 @@ def gen_cases(ctx):
         cases.append({"seed": rng.randrange(1, 2 ** 31), "mode": rng.randrange(4), "victim": rng.randrange(nthreads),
                       "keys": keys, "prefill": prefill, "scripts": scripts})
 
-    for _ in range(120 if quick else 2500):
+    for _ in range(120 if quick else 1600):
         mk(rng.choice((2, 2, 3, 3, 4)), 0, 4)
-    for _ in range(40 if quick else 600):
+    for _ in range(40 if quick else 400):
         mk(rng.choice((1, 2, 3)), rng.choice((1, 2, 3)), 5)
     # across the first and second block boundary (15/16, 30/31 objects)
-    for _ in range(40 if quick else 500):
+    for _ in range(40 if quick else 400):
         mk(rng.choice((2, 3)), rng.choice((13, 14, 15, 16) if quick else (13, 14, 15, 16, 28, 29, 30, 31)), 3)
     for _ in range(0 if quick else 150):
         mk(rng.choice((3, 4, 6)), 0, 8)
